@@ -161,6 +161,18 @@ def property_holds_emission(req, text, lo="", up=""):
     return True
 
 
+
+def lean_checked(ck, mods, props):
+    """ck.lean, re-run once when a props module could not be audited although lake succeeded (its .olean was
+    momentarily missing: the lake build directory is shared); still unaudited afterwards = broken obligation"""
+    res = ck.lean(mods, props)
+    if res.ok and res.failed:
+        ck.lean_results.pop()
+        res = ck.lean(mods, props)
+        if res.ok and res.failed:
+            res.ok = False
+    return res
+
 def run(ck):
     rng = random.Random(ck.seed)
     # ------------------------------------------------------------------ build
@@ -176,7 +188,7 @@ def run(ck):
     emitter = ck.cxx("c27e", ["C27/emit.cxx", vlib.REPO + "/mfront/src/CodeGeneratorUtilities.cxx"],
                      includes=[vlib.REPO + "/mfront/include", "/repo/_build/include"], libs=lf)
     driver = ck.lean_exe("c27driver", "TfelVerif/C27/Driver.lean")
-    res = ck.lean(PROPS, PROPS)
+    res = lean_checked(ck, PROPS, PROPS)
     ck.lean_violations(res)
     if ck.tier == "thorough" and res.ok:
         for m_, log in ck.leanchecker(PROPS):
